@@ -113,7 +113,7 @@ fn report(c: &C13Case) -> CaseReport {
     let n = base.n_calls;
     // every position for workloads up to 1500 underlying calls; longer ones are strided
     // (stride and offset are a function of the case) so that one case stays cheap
-    let stride = (n / 1500).max(1);
+    let stride = (n / 1000).max(1);
     let offset = if stride > 1 { case_hash % stride } else { 0 };
     rep.classes.push(if stride == 1 { "all_positions".into() } else { "strided_positions".into() });
     for k in (offset..n).step_by(stride as usize) {
@@ -168,7 +168,7 @@ pub fn def() -> PropDef {
         level: "fault_enumeration",
         rule: "mutating workload of 5-22 calls on a fresh file (create/remove storages and streams in a fixed 8-name namespace, write/write_all in chunks around the buffer capacity through up to 2 handles, seek, set_len, read, flush, close, set_state_bits, CompoundFile::flush; buffer sizes 1024/4096/default, both versions); the fault-free run counts N underlying write+seek+flush calls, then one run per k in [0,N) with call k failing; after an Err the call is retried once. Oracle: (a) the API call during which the fault fired returns Err (Drop exempt, as documented); (b) nothing panics and the worker's CPU budget holds; (c) whenever Stream::flush returns Ok, the underlying writer was flushed and a fresh handle reads back every byte accepted by earlier write calls on that handle at its offset (read-back Err is also a violation). evaluations = executions; a non-trivial item = an execution where the fault hit a call on a handle holding accepted-but-unflushed bytes and a later flush on that handle returned Ok; distinct = distinct (case, k).",
         assumptions: &["single faults are enumerated exhaustively per workload; workloads are sampled", "offsets truncated (or possibly truncated by a failed set_len) are dropped from the expectation"],
-        quick_cases: 30,
+        quick_cases: 12,
         thorough_cases: 1500,
         worker,
         solo,
